@@ -140,8 +140,7 @@ def random_strings(rng, count):
     """(stream, string)"""
     out = []
     langs = {}
-    with warnings.catch_warnings():
-        warnings.simplefilter('ignore')
+    with common.quiet():
         for n in LOGICS:
             langs[n] = lang(n)
     while len(out) < count:
@@ -215,8 +214,7 @@ def fixed_strings():
 
 def real_outcome(parser, PP, s):
     try:
-        with warnings.catch_warnings():
-            warnings.simplefilter('ignore')
+        with common.quiet():
             o = parser(s)
     except PP.UnexpectedToken as e:
         return 'ERR UnexpectedToken %d' % e.pos
@@ -280,8 +278,7 @@ def main():
         return 2
     from pyModelChecking import parser as PP
     parsers = {}
-    with warnings.catch_warnings():
-        warnings.simplefilter('ignore')
+    with common.quiet():
         for n in LOGICS:
             parsers[n] = lang(n).Parser()
 
